@@ -2,6 +2,8 @@ package props
 
 import (
 	"fmt"
+	"os"
+	"path/filepath"
 	"strings"
 
 	"github.com/la5nta/wl2k-go/fbb"
@@ -42,6 +44,44 @@ func c12sTokens() []string {
 	return out
 }
 
+// c12sTmp is the process's temporary directory for the session cases (TMPDIR points there): deep inside
+// a tree of its own, so that an identifier with dot-dot segments appended to it still lands inside
+// what is watched. Nothing in the library has any business there.
+var c12sTmp, c12sTmpRoot string
+
+func c12sSetupTmp() {
+	root, err := os.MkdirTemp(sandbox.TmpBase(), "c12tmp")
+	if err != nil {
+		core.Infra("%v", err)
+	}
+	c12sTmpRoot, c12sTmp = root, filepath.Join(root, "deep", "a", "b", "tmp")
+	if err := os.MkdirAll(c12sTmp, 0o755); err != nil {
+		core.Infra("%v", err)
+	}
+	os.Setenv("TMPDIR", c12sTmp)
+}
+
+// c12sStray lists (and removes) whatever appeared under the temporary tree.
+func c12sStray() string {
+	var found []string
+	filepath.Walk(c12sTmpRoot, func(p string, info os.FileInfo, err error) error {
+		if err != nil {
+			return nil
+		}
+		rel, _ := filepath.Rel(c12sTmpRoot, p)
+		switch rel {
+		case ".", "deep", "deep/a", "deep/a/b", "deep/a/b/tmp":
+			return nil
+		}
+		found = append(found, rel)
+		return nil
+	})
+	for i := len(found) - 1; i >= 0; i-- {
+		os.RemoveAll(filepath.Join(c12sTmpRoot, found[i]))
+	}
+	return strings.Join(found, ", ")
+}
+
 func c12sRun(c c12sCase) (class, detail string) {
 	sb, err := sandbox.New(sandbox.TmpBase())
 	if err != nil {
@@ -74,6 +114,11 @@ func c12sRun(c c12sCase) (class, detail string) {
 		peer.Run(cn)
 	})
 	_ = res // errors and panics on hostile identifiers are C03's business
+	if stray := c12sStray(); stray != "" {
+		// (cases run side by side in this process: the entry may stem from a neighbour - on a tree that
+		// keeps the property nothing ever appears here)
+		return "escape|session|created|in the temporary directory", "files appeared under the temporary directory tree: " + stray
+	}
 	after := sandbox.Snapshot(sb.Root, sb.MBox)
 	if d := sandbox.Diff(before, after); d != "" {
 		via := "mid-header"
@@ -107,6 +152,7 @@ func C12Session(args []string) {
 		fmt.Printf("%+v: class=%q %s\n", f.Case, c, d)
 		return
 	}
+	c12sSetupTmp()
 	var cases []c12sCase
 	hostile := c12sTokens()
 	for _, mid := range hostile {
@@ -140,6 +186,7 @@ func C12Session(args []string) {
 			r.Sample(c)
 		}
 	})
+	os.RemoveAll(c12sTmpRoot)
 	r.Finish(nil, nil)
 }
 
